@@ -521,6 +521,15 @@ Proof.
     + unfold pc_pair. simpl. unfold tgt in Hs, Ht. rewrite <- Hs, Ht. exact Hq2.
 Qed.
 
+(* a root coordinate locates nothing *)
+Lemma located_no_root : forall d ps, del_all_located d (map pc_pair ps) = true -> has_root_coord ps = false.
+Proof.
+  intros d ps H. unfold has_root_coord. destruct (existsb _ ps) eqn:E; [|reflexivity].
+  apply existsb_exists in E. destruct E as [p [Hin Hp]].
+  pose proof (located_in d ps p H Hin) as Hl. unfold del_located, pc_pair in Hl. simpl in Hl.
+  destruct (pc_parent p); [discriminate|]. simpl in Hl. discriminate.
+Qed.
+
 (* THE FULL THEOREM: whatever was gathered - Collector nesting, the same node
    any number of times, any order - if every gathered coordinate locates a
    node, exactly the located nodes are removed and nothing else changes. *)
@@ -529,7 +538,7 @@ Theorem delete_exact : forall d cs,
   del_all_located d (map pc_pair (leaf_coords cs)) = true ->
   delete_nodes cs d = MDone (delete_spec d (map pc_pair (leaf_coords cs))).
 Proof.
-  intros d cs Hwf Hl. unfold delete_nodes. rewrite del_plan_entries.
+  intros d cs Hwf Hl. unfold delete_nodes. rewrite (located_no_root d _ Hl). rewrite del_plan_entries.
   rewrite run_del_exact; auto.
   - f_equal. unfold delete_spec. apply prune_ext. intros o _ k. apply plan_targets; assumption.
   - apply plan_ordered; assumption.
